@@ -342,7 +342,7 @@ fn text_fuzz(r: &mut Report, rng: &mut Rng, w: &gen::GWorld) {
 pub fn run_lock_sites(r: &mut Report) {
     let mut d = Driver::spawn();
     let (shard, nshards) = shard();
-    let n = if r.thorough() { 8000 } else { 1200 } / nshards;
+    let n = if r.thorough() { 12000 } else { 3600 } / nshards;
     let mut rng = Rng::new(r.seed.wrapping_add(shard.wrapping_mul(2750159)) ^ 0xC07);
     for i in 0..n {
         let mut crng = rng.fork();
@@ -359,7 +359,7 @@ pub fn run(r: &mut Report) {
     let mut d = Driver::spawn();
     let (shard, nshards) = shard();
     r.rule = "stores = generated worlds (locked view) with one structural defect injected at one of 17 sites (imports.lock stale w.r.t. an import's `exclude` list or the set of imports (locked loads); undefined criterion in exemptions / policy criteria, dev-criteria, dependency-criteria / implies / local audits / local wildcard audits / trusted / criteria-map targets / imports.lock audits and wildcard audits (locked loads); implication cycle; built-in redefined; more than 64 criteria; wildcard end date beyond the cap); unlocked loads are of projects without peers, written with the real serialiser and loaded with the real loader; plus text-level damage (truncation, deleted/duplicated line, wrong type, unknown field, renamed definition); non-trivial = a defect was injected; distinct by file contents".into();
-    let n = if r.thorough() { 24000 } else { 3000 } / nshards;
+    let n = if r.thorough() { 32000 } else { 9000 } / nshards;
     let mut rng = Rng::new(r.seed.wrapping_add(shard.wrapping_mul(2750159)) ^ 0xC15);
     if shard == 0 {
         // deterministic witnesses of the known findings that need a matching publisher record
